@@ -328,6 +328,13 @@ def getattr_(it, obj, name, node=None):
             return bind_attr(it, v, obj, obj.cls)
         if obj.cls.kind == 'namedtuple' and name in ('_replace', '_asdict'):
             raise Unsupported('namedtuple.' + name)
+        if getattr(obj, 'open_payload', None) and not name.startswith('__'):
+            # an arbitrary object of an open family (any decoded trace): every further attribute may exist, with any value
+            tag = obj.open_payload
+            if it.ctx.branch(z3.Bool('%s.has.%s' % (tag, name))):
+                v = SInt(z3.Int('%s.%s' % (tag, name)))
+                obj.fields[name] = v
+                return v
         raise PyExc('AttributeError', '%s has no attribute %s' % (obj.cls.name, name),
                     site=(getattr(node, 'lineno', None), 'attr'), kind='attr')
     if isinstance(obj, SOpt):
